@@ -1,6 +1,7 @@
 package labelmap
 
 import (
+	"encoding/binary"
 	"fmt"
 	"io"
 	"sync"
@@ -53,6 +54,20 @@ func (d *Data) PutLabels(v dvid.VersionID, subvol *dvid.Subvolume, data []byte, 
 	// Only do voxel-based mutations one at a time.  This lets us remove handling for block-level concurrency.
 	d.voxelMu.Lock()
 	defer d.voxelMu.Unlock()
+
+	// Persist the largest incoming label before any voxel is stored.  The per-block
+	// max-label updates below run in the background, possibly after this request has
+	// returned; if the server died before they ran, labels already on disk would be
+	// above the persisted counter and later be handed out again as "new" labels.
+	var maxIncoming uint64
+	for i := 0; i+8 <= len(data); i += 8 {
+		if label := binary.LittleEndian.Uint64(data[i : i+8]); label > maxIncoming {
+			maxIncoming = label
+		}
+	}
+	if _, err := d.updateMaxLabel(v, maxIncoming); err != nil {
+		return err
+	}
 
 	// Keep track of changing extents, labels and mark repo as dirty if changed.
 	var extentChanged bool
